@@ -560,12 +560,16 @@ Qed.
 
 Lemma frag_fexpr_KF fl k sc x K : frag_fexpr pv sv bound fl k sc x = Some K -> K <> KP.
 Proof.
-  destruct k as [|k]; [discriminate|]. destruct x; try discriminate; cbn [frag_fexpr].
-  - destruct (fun_kind fl var) as [[|a r]|]; try discriminate. intros H; inversion H; discriminate.
-  - destruct x; try discriminate. destruct (var =? pv); [discriminate|].
-    destruct (fun_kind fl var) as [[|ks [|a r]]|]; try discriminate.
-    match goal with |- (if ?b then _ else _) = _ -> _ => destruct b; [|discriminate] end. intros H; inversion H; discriminate.
-  - match goal with |- (if ?b then _ else _) = _ -> _ => destruct b; [|discriminate] end. intros H; inversion H; discriminate.
+  destruct k as [|k]; [discriminate|]. destruct x; try discriminate.
+  - cbn [frag_fexpr]. destruct (fun_kind fl var) as [[|a r]|]; try discriminate. intros H; inversion H; discriminate.
+  - destruct (read_dec x) as [(f & fsp & ->)|Hnr].
+    + rewrite frag_fexpr_call. destruct (f =? pv); [discriminate|].
+      destruct (fun_kind fl f) as [[|ks [|a r]]|]; try discriminate.
+      destruct (frag_args pv sv bound fl k sc ks args); [|discriminate]. intros H; inversion H; discriminate.
+    + rewrite (frag_fexpr_call2 _ _ _ _ _ _ _ _ _ Hnr).
+      destruct (frag_fexpr pv sv bound fl k sc x) as [[|ks [|a r]]|]; try discriminate.
+      destruct (frag_args pv sv bound fl k sc ks args); [|discriminate]. intros H; inversion H; discriminate.
+  - cbn [frag_fexpr]. match goal with |- (if ?b then _ else _) = _ -> _ => destruct b; [|discriminate] end. intros H; inversion H; discriminate.
 Qed.
 
 (* the names a list of parameters must avoid: fewer names, still fresh *)
